@@ -119,6 +119,11 @@ func (a *allocation) refreshAllocation(lifetime time.Duration, dontWait bool) er
 	return nil
 }
 
+// maxPeersPerPermissionRefresh bounds the peers named in one CreatePermission
+// sent by the periodic refresh: 32 XOR-PEER-ADDRESS attributes (24 bytes each
+// for IPv6) stay well below every common datagram limit.
+const maxPeersPerPermissionRefresh = 32
+
 func (a *allocation) refreshPermissions() error {
 	addrs := a.permMap.addrs()
 	if len(addrs) == 0 {
@@ -126,13 +131,21 @@ func (a *allocation) refreshPermissions() error {
 
 		return nil
 	}
-	if err := a.CreatePermissions(addrs...); err != nil {
-		if errors.Is(err, errTryAgain) {
-			return errTryAgain
-		}
-		a.log.Errorf("Fail to refresh permissions: %s", err)
+	// One request for all peers soon exceeds what the server reads as one
+	// datagram (about 125 IPv4 peers fill its default 1600-byte buffer; the
+	// request is then dropped unanswered and every permission expires) and,
+	// beyond a few thousand peers, the 16-bit STUN length: refresh in chunks.
+	for len(addrs) > 0 {
+		n := min(len(addrs), maxPeersPerPermissionRefresh)
+		if err := a.CreatePermissions(addrs[:n]...); err != nil {
+			if errors.Is(err, errTryAgain) {
+				return errTryAgain
+			}
+			a.log.Errorf("Fail to refresh permissions: %s", err)
 
-		return err
+			return err
+		}
+		addrs = addrs[n:]
 	}
 	a.log.Debug("Refresh permissions successful")
 
